@@ -280,13 +280,14 @@ void run_box(uint64_t seed) {
 }
 
 // per-thread ids across thread creation and exit
-void run_threadid(uint64_t seed) {
+template <typename TID>
+void run_threadid(uint64_t seed, const char* mode) {
   vrt_unname_all();
   Rng rng(seed);
   int waves = 2 + (int)rng.below(3);
   vrt_begin(seed);
-  printf("RUN %lu W=16 mode=threadid\n", (unsigned long)seed);
-  (void)ThreadId::current_thread_id();
+  printf("RUN %lu W=16 mode=%s\n", (unsigned long)seed, mode);
+  (void)TID::current_thread_id();
   for (int w = 0; w < waves; ++w) {
     int n = 1 + (int)rng.below(4);
     std::vector<int> ids(n, -1);
@@ -294,11 +295,11 @@ void run_threadid(uint64_t seed) {
     std::vector<std::thread> ts;
     for (int t = 0; t < n; ++t) {
       ts.emplace_back([&, t] {
-        ids[t] = ThreadId::current_thread_id().value;
+        ids[t] = TID::current_thread_id().value;
         live[t] = 1;
         for (int o = 0; o < n; ++o)
           if (o != t && live[o] && ids[o] == ids[t]) vrt_event("ORACLE two live threads share thread id %d", ids[t]);
-        if (ThreadId::current_thread_id().value != ids[t]) vrt_event("ORACLE thread id not stable");
+        if (TID::current_thread_id().value != ids[t]) vrt_event("ORACLE thread id not stable");
         sched_yield();
         live[t] = 0;
       });
@@ -306,9 +307,72 @@ void run_threadid(uint64_t seed) {
     for (auto& t : ts) t.join();
     // quiescent: only the main thread is alive; for_each must report exactly its id
     unsigned count = 0;
-    ThreadId::for_each([&](uint16_t b, uint16_t e) { count += e - b; });
+    TID::for_each([&](uint16_t b, uint16_t e) { count += e - b; });
     if (count != 1) vrt_event("ORACLE for_each reports %u live thread ids at quiescence, expected 1", count);
-    if (ThreadId::end() > 1 + 4) vrt_event("ORACLE thread ids not reused: end=%u", (unsigned)ThreadId::end());
+    if (TID::end() > 1 + 4) vrt_event("ORACLE thread ids not reused: end=%u", (unsigned)TID::end());
+  }
+  vrt_event("stats steps %lu switches %lu stale %lu", vrt_steps(), vrt_switches(), vrt_stale_reads());
+  vrt_end();
+  vrt_dump(stdout);
+}
+
+
+// DepositBox through the public Accessor API (take() -> Accessor, moved around, destroyed): the glue
+// around take_released / finish_released.  Live (untaken) items must never be disturbed by slot
+// recycling: a slot finished twice would be handed to a new emplace while its item is still owned.
+void run_boxacc(uint64_t seed) {
+  using Box = DepositBox<std::string>;
+  auto& box = Box::instance();
+  vrt_unname_all();
+  Rng rng(seed);
+  vrt_begin(seed);
+  printf("RUN %lu W=32 mode=boxacc\n", (unsigned long)seed);
+  int rounds = 2 + (int)rng.below(4);
+  std::vector<std::pair<VersionedValue<uint32_t>, std::string>> live;   // emplaced, not yet taken
+  auto check_live = [&](const char* when) {
+    for (auto& kv : live) {
+      if (box.unsafe_get(kv.first) != kv.second) vrt_event("ORACLE live item of slot %u disturbed (%s)", kv.first.value, when);
+      for (auto& o : live)
+        if (&o != &kv && o.first.value == kv.first.value) vrt_event("ORACLE slot %u handed out by emplace while an earlier emplace still owns it", kv.first.value);
+    }
+  };
+  for (int r = 0; r < rounds; ++r) {
+    int nnew = 1 + (int)rng.below(4);
+    for (int i = 0; i < nnew; ++i) {
+      char buf[48];
+      snprintf(buf, sizeof buf, "acc-%lu-%d-%d", (unsigned long)seed, r, i);
+      auto id = box.emplace(std::string(buf));
+      live.emplace_back(id, buf);
+    }
+    check_live("after emplace");
+    // take some of them from two threads through Accessors that get moved
+    int ntake = (int)rng.below(live.size() + 1);
+    std::vector<std::pair<VersionedValue<uint32_t>, std::string>> victims(live.begin(), live.begin() + ntake);
+    live.erase(live.begin(), live.begin() + ntake);
+    std::vector<int> wins(victims.size(), 0);
+    auto taker = [&](int how) {
+      std::vector<Box::Accessor> keep;
+      for (size_t k = 0; k < victims.size(); ++k) {
+        auto acc = box.take(victims[k].first);
+        if (acc) {
+          ++wins[k];
+          if (*acc != victims[k].second) vrt_event("ORACLE accessor sees wrong item");
+          if (how == 0) keep.push_back(std::move(acc));                  // move construction
+          else if (how == 1) { Box::Accessor other; other = std::move(acc); }   // move assignment
+        }
+      }
+    };
+    std::thread t1(taker, (int)rng.below(3)), t2(taker, (int)rng.below(3));
+    t1.join();
+    t2.join();
+    for (size_t k = 0; k < victims.size(); ++k)
+      if (wins[k] != 1) vrt_event("ORACLE %d accessors obtained the item of one emplace", wins[k]);
+    check_live("after accessors died");
+  }
+  // drain
+  for (auto& kv : live) {
+    auto acc = box.take(kv.first);
+    if (!acc || *acc != kv.second) vrt_event("ORACLE final take of a live item failed");
   }
   vrt_event("stats steps %lu switches %lu stale %lu", vrt_steps(), vrt_switches(), vrt_stale_reads());
   vrt_end();
@@ -324,7 +388,9 @@ int main(int argc, char** argv) {
     if (mode == "alloc32") run_alloc<uint32_t>(seed, "alloc32");
     else if (mode == "alloc16") run_alloc<uint16_t>(seed, "alloc16");
     else if (mode == "box") run_box(seed);
-    else if (mode == "threadid") run_threadid(seed);
+    else if (mode == "threadid") run_threadid<ThreadId>(seed, "threadid");
+    else if (mode == "leakyid") run_threadid<LeakyThreadId>(seed, "leakyid");
+    else if (mode == "boxacc") run_boxacc(seed);
     else return 2;
   }
   return 0;
